@@ -110,6 +110,12 @@ func Trim(input string, maxPrintableLength int) string {
 		}
 	}
 
+	// With fewer printable characters than asked for, all
+	// escapes have been counted in: the whole string is kept.
+	if maxPrintableLength > len(input) {
+		maxPrintableLength = len(input)
+	}
+
 	// Determine the end index for limiting printable content
 	return input[:maxPrintableLength]
 }
